@@ -31,10 +31,10 @@ var renderedWrappers = func() []int {
 var c03Families = []*family{
 	{name: "f", ctors: []string{"NewFile"}, paths: []string{"a/f", "b/f", "c/F", "x/f1", "y/pkg_f"},
 		names:   map[string]string{"a/f": "f", "b/f": "f", "c/F": "f", "x/f1": "f1", "y/pkg_f": "pkg_f"},
-		aliases: []string{"f", "f1", "pkg_f", "_"}, prefixes: []string{"pkg", "pkg_"}, maxRefs: 4, freeRefs: 3, wrappers: []int{0, imp.WrapperIndex("dictkey"), imp.WrapperIndex("caseblock")}, anon: true, oneDict: true},
+		aliases: []string{"f", "f1", "pkg_f", "_"}, prefixes: []string{"pkg", "pkg_"}, maxRefs: 4, freeRefs: 3, wrappers: []int{0, imp.WrapperIndex("dictkey"), imp.WrapperIndex("caseblock")}, anon: true, oneDict: true, lateNames: true},
 	{name: "rand", ctors: []string{"NewFile"}, paths: []string{"math/rand", "crypto/rand", "x/rand", "y/rand1", "text/template", "html/template"},
 		names:   map[string]string{"x/rand": "rand", "y/rand1": "rand1"},
-		aliases: []string{"rand", "rand1", "template"}, prefixes: []string{"p"}, maxRefs: 4, freeRefs: 3, wrappers: []int{0}, anon: true},
+		aliases: []string{"rand", "rand1", "template"}, prefixes: []string{"p"}, maxRefs: 4, freeRefs: 3, wrappers: []int{0}, anon: true, lateNames: true},
 	{name: "reserved", ctors: []string{"NewFile"}, paths: []string{"x/go", "y/go", "x/int", "x/any", "x/1f", "x/9", "x/é-b", "z/pkg", "x/err", "x/api/2.0", "x/-7zip", "x/3-2-1go"},
 		names:   map[string]string{"x/int": "int", "x/any": "any", "z/pkg": "pkg", "x/err": "err", "x/1f": "f"},
 		aliases: []string{"go", "pkg", "int", "pkg1"}, prefixes: []string{"pkg"}, maxRefs: 3, freeRefs: 2, wrappers: []int{0}, anon: false, doubles: true},
